@@ -246,6 +246,15 @@ _VERSION = itertools.count()
 
 class Tensor:
     __array_priority__ = 2000
+    _conjbit = False       # torch's lazy-conjugation bit: set on the result of conj() of a complex tensor, kept by views/detach, dropped by clone and arithmetic
+
+    def is_conj(self):
+        return self._conjbit
+
+    def resolve_conj(self):
+        if not self._conjbit:
+            return self
+        return _mk(self.a.copy(), self.dtype, (self,))
 
     def __init__(self, a, dt, requires_grad=False):
         if not (_isinstance(a, _np.ndarray) and a.dtype == object):
@@ -370,6 +379,7 @@ class Tensor:
             return Tensor(autograd.cut_array(self.a), self.dtype)     # value-equal copy, independent for differentiation
         r = Tensor(self.a, self.dtype)   # shares storage, cut from the graph
         r._detached_from = self
+        r._conjbit = self._conjbit
         return r
 
     def clone(self):
@@ -663,6 +673,8 @@ def _mk(a, dt, parents=(), view=False):
                     t.requires_grad = True
                     t.is_leaf = False
                 break
+    if view and parents and _isinstance(parents[0], Tensor) and parents[0]._conjbit:
+        t._conjbit = True
     return t
 
 
@@ -1285,7 +1297,9 @@ def conj(t):
     a = f(t.a) if t.a.size else t.a.copy()
     if not _isinstance(a, _np.ndarray):
         a = _objarr(a)
-    return _mk(a, t.dtype, (t,))
+    r = _mk(a, t.dtype, (t,))
+    r._conjbit = not t._conjbit
+    return r
 
 
 def clone(t):
@@ -1301,6 +1315,36 @@ def abs(t):  # noqa: A001
     if dt.is_complex:
         dt = float64 if dt.bits == 128 else float32
     return _mk(a, dt, (t,))
+
+
+def _sgn_scalar(v):
+    if hasattr(v, 're') and hasattr(v, 'im'):
+        if (v.re == 0) and (v.im == 0):
+            return 0
+        if v.im == 0:
+            return _sgn_scalar(v.re)
+        unsupported('sgn of a complex number with non-zero imaginary part')
+    if _isinstance(v, complex):
+        return 0 if v == 0 else v / _py_abs(v)
+    if v > 0:
+        return 1
+    if v < 0:
+        return -1
+    return 0
+
+
+def sgn(t):
+    f = _np.frompyfunc(_sgn_scalar, 1, 1)
+    a = f(t.a) if t.a.size else t.a.copy()
+    if not _isinstance(a, _np.ndarray):
+        a = _objarr(a)
+    return _mk(a, t.dtype, (t,))
+
+
+def sign(t):
+    if t.dtype.is_complex:
+        raise RuntimeError('Unlike NumPy, torch.sign is not intended to support complex numbers. Please use torch.sgn instead.')
+    return sgn(t)
 
 
 def _sqrt_scalar(v):
@@ -1625,6 +1669,7 @@ def _scan_weights_only(obj):
 def _deep(obj):
     if _isinstance(obj, Tensor):
         t = Tensor(obj.a.copy(), obj.dtype)
+        t._conjbit = obj._conjbit
         return t
     if _isinstance(obj, dict):
         return {k: _deep(v) for k, v in obj.items()}
